@@ -586,9 +586,10 @@ def touched_members(fn, rec_name, depth=3, _seen=None):
     return fields, bases
 
 
-def check_special_members(ctx, rule, fb, rec_re, exceptions=None):
+def check_special_members(ctx, rule, fb, rec_re, exceptions=None, files=None, skip=None):
     """every user-provided move-ctor / move-assign / swap of the matching records must reference every
-    non-static data member and every base that carries data"""
+    non-static data member and every base that carries data; `files`: restrict to records defined in these files;
+    `skip`: [(record regex, field, reason)] named exceptions"""
     exceptions = exceptions or {}
     rx = re.compile(rec_re)
     recs = fb.records()
@@ -596,6 +597,13 @@ def check_special_members(ctx, rule, fb, rec_re, exceptions=None):
     for name, rec in sorted(recs.items()):
         if not rx.search(name):
             continue
+        if files is not None and rec.get("file") not in files:
+            continue
+        if skip:
+            exceptions = dict(exceptions)
+            for srx, fld, _why in skip:
+                if re.search(srx, name):
+                    exceptions[(name, fld)] = True
         fields = [f["name"] for f in rec["fields"] if f["name"]]
         data_bases = [b["type"] for b in rec["bases"] if b.get("has_data")]
         for fn in fb.find(pred=lambda f: f.record == name and f.has_cfg() and
